@@ -63,6 +63,7 @@ type Solver struct {
 	hdr        string
 	retryBin  string // solver spec for one-shot retries (default: bin)
 	tactic   string   // non-empty: (check-sat-using <tactic>) instead of (check-sat)
+	fbInit   bool     // "fallback:" mode: short timeout for the incremental attempt has been set
 	logf     *os.File // VERIF_SMTLOG=<dir>: transcript of everything sent (diagnostics)
 }
 
@@ -116,6 +117,7 @@ func (s *Solver) start() error {
 	s.em = s.newEmitter()
 	s.depth = 0
 	s.dead = false
+	s.fbInit = false
 	if d := os.Getenv("VERIF_SMTLOG"); d != "" && s.logf == nil {
 		s.logf, _ = os.Create(fmt.Sprintf("%s/solver-%d-%d.smt2", d, os.Getpid(), atomic.AddInt64(&solverSeq, 1)))
 	}
@@ -200,16 +202,55 @@ func (s *Solver) readLine() (string, error) {
 	return strings.TrimSpace(line), err
 }
 
-// checkRaw sends (check-sat) and reads the answer.
+// checkRaw sends (check-sat) and reads the answer.  A tactic of the form
+// "fallback:<tactic>" means: ask the incremental core first (5 s), and only if
+// that is undecided ask (check-sat-using <tactic>) with the full timeout.
 func (s *Solver) checkRaw() SatResult {
 	t0 := time.Now()
-	if s.tactic != "" {
+	tactic, fallback := s.tactic, ""
+	if strings.HasPrefix(tactic, "fallback:") {
+		tactic, fallback = "", strings.TrimPrefix(tactic, "fallback:")
+		if !s.fbInit {
+			s.fbInit = true
+			s.send("(set-option :timeout 5000)\n")
+		}
+	}
+	if tactic != "" {
 		// (set-option :timeout) does not bound tactics: try-for does
-		s.send(fmt.Sprintf("(check-sat-using (try-for %s %d))\n", s.tactic, s.timeoutMs))
+		s.send(fmt.Sprintf("(check-sat-using (try-for %s %d))\n", tactic, s.timeoutMs))
 	} else {
 		s.send("(check-sat)\n")
 	}
 	s.stats.Queries++
+	res := s.readAnswer()
+	if res == Unknown && fallback != "" && s.lastErr == "" && !s.dead {
+		// the global :timeout also bounds check-sat-using: lift it for the retry
+		s.send(fmt.Sprintf("(set-option :timeout %d)\n(check-sat-using (try-for %s %d))\n", s.timeoutMs, fallback, s.timeoutMs))
+		res = s.readAnswer()
+		s.send("(set-option :timeout 5000)\n")
+	}
+	if s.lastErr != "" {
+		res = Unknown
+	}
+	s.stats.Nanos += int64(time.Since(t0))
+	if d := time.Since(t0); d > 3*time.Second && slowLog != nil {
+		slowLog(d, res, s.context)
+	}
+	if queryLog != nil && s.context != nil { // VERIF_QUERYLOG=<file>: one line per query (diagnostics)
+		fmt.Fprintf(queryLog, "%.3f %s %s\n", time.Since(t0).Seconds(), res, s.context())
+	}
+	switch res {
+	case Sat:
+		s.stats.Sat++
+	case Unsat:
+		s.stats.Unsat++
+	default:
+		s.stats.Unknown++
+	}
+	return res
+}
+
+func (s *Solver) readAnswer() SatResult {
 	res := Unknown
 	for {
 		line, err := s.readLine()
@@ -237,24 +278,6 @@ func (s *Solver) checkRaw() SatResult {
 			res = Unknown
 		}
 		break
-	}
-	if s.lastErr != "" {
-		res = Unknown
-	}
-	s.stats.Nanos += int64(time.Since(t0))
-	if d := time.Since(t0); d > 3*time.Second && slowLog != nil {
-		slowLog(d, res, s.context)
-	}
-	if queryLog != nil && s.context != nil { // VERIF_QUERYLOG=<file>: one line per query (diagnostics)
-		fmt.Fprintf(queryLog, "%.3f %s %s\n", time.Since(t0).Seconds(), res, s.context())
-	}
-	switch res {
-	case Sat:
-		s.stats.Sat++
-	case Unsat:
-		s.stats.Unsat++
-	default:
-		s.stats.Unknown++
 	}
 	return res
 }
